@@ -45,7 +45,7 @@ PROPS = {
             'encode_trailers is under contract through the assumed HeaderMap::iter / Iterator::fold contracts (A-http-28, A-core-20) with three logged let-introductions (R20); a rewrite of it onto another iterator API (into_iter, for loops) leaves the shim and is reported undecided',
             'base64 itself (RFC 4648, decode of concatenated unpadded quanta) is assumed (A-b64-01); the whole-body statement follows from the per-call conservation clauses B1-B3 only under that assumption',
             'service.rs is under contract (unit webservice); tonic::body::Body is type-erased, so "the body reaches the inner service behind the decoding adapter" is stated through an uninterpreted erasure function (A-tonic-body-01); GrpcWebService::poll_ready (a forward) is not under contract',
-            'CORS handling and the GrpcWebLayer wiring',
+            'GrpcWebLayer::layer / GrpcWebService::new are under contract (the layer installs the translation around the service); CORS is left to the cors layer the user composes with it (tonic-web itself has no CORS code at this commit)',
         ]),
     'C17': dict(
         units=['webclient', 'webserver', 'webservice', 'webtrailers'], level='proof',
